@@ -269,10 +269,15 @@ def handle (fn : String) (argToks : List String) (impl : List String) : Verdict 
     match spec with
     | none => { model := some "bad-op" }
     | some exps =>
-      let expected := model.getD ref
-      if model.isSome ∧ !sameL expected ref then
+      -- a wrapper that post-processes a Go function Lean cannot compute (mathAtan2): Model = f(operands, Go's result)
+      let ofRef : Option (List Bits) :=
+        match xs with
+        | [x, y] => MathModel.call2OfRef fn x y ref
+        | _ => none
+      let expected := ofRef.getD (model.getD ref)
+      if model.isSome ∧ !sameL (model.getD ref) ref then
         -- the trusted base is broken: Go's math (or this file's arithmetic) is not the IEEE operation
-        { model := some ("go-reference=" ++ showNums ref ++ " lean-model=" ++ showNums expected) }
+        { model := some ("go-reference=" ++ showNums ref ++ " lean-model=" ++ showNums (model.getD ref)) }
       else
       match gotT.mapM parseNum with
       | none =>
@@ -283,9 +288,7 @@ def handle (fn : String) (argToks : List String) (impl : List String) : Verdict 
         let sp : Option String := (firstBad exps got 0).map fun why =>
           let kf : Bool := (fn == "mod" || fn == "opmod") && m.isNone &&
             (match xs with | [a, b] => luaModIeeeOnly a b | _ => false)
-          let kfA : Bool := fn == "atan2" && m.isNone &&
-            (match xs with | [y, x] => atan2UnderflowClass y x | _ => false)
-          (if kf then "KF:C15-modulo-ieee-specials " else if kfA then "KF:C15-atan2-underflow-sign " else "") ++
+          (if kf then "KF:C15-modulo-ieee-specials " else "") ++
             fn ++ "(" ++ showNums xs ++ "): " ++ why
         { model := m, spec := sp }
   | _, _ => { model := some "bad-args" }
@@ -308,6 +311,25 @@ def specFmodOk (x y r : Int) : Bool :=
 def specModOk (x y r : Int) : Bool :=
   (r = 0 ∨ ((r > 0) = (y > 0))) ∧ r.natAbs < y.natAbs ∧ (x - r) % y = 0
 
+/-- argument positions (0-based, after the op word) that the library reads with CheckInt / OptInt -/
+def intPositions (op : String) : List Nat :=
+  match op with
+  | "sub" | "byte" => [1, 2]
+  | "rep" => [1]
+  | "find" => [2]
+  | _ => []
+
+/-- an integer argument given as a string is converted (CheckInt = int(CheckNumber), Lua §2.2.1);
+    `none`: some string in an integer position is not a numeral — a type error is due -/
+def coerceIntArgs (op : String) (as : List Arg) : Option (List Arg) :=
+  let pos := intPositions op
+  as.zipIdx.mapM fun (a, k) =>
+    if pos.contains k then
+      match a with
+      | .str b => (StrModel.checkIntStr b).map .int
+      | a => some a
+    else some a
+
 def handle (ws : List String) : Verdict :=
   let (args, impl) := splitArrow ws
   match args with
@@ -321,24 +343,15 @@ def handle (ws : List String) : Verdict :=
   | op :: rest =>
     match rest.mapM parseArg with
     | none => { model := some "bad-args" }
-    | some as =>
+    | some as0 =>
+      match coerceIntArgs op as0 with
+      | none => verdict "err" "err" impl op     -- Model: ls.TypeError(n, LTNumber); Spec: not convertible, an error
+      | some as =>
       match op, as with
       | "sub", [.str s, .int i, j] =>
         match optInt j with
         | some j =>
           verdict (showR showStr (StrModel.strSub s i j)) (showStr (sub s i (j.getD (-1)))) impl "sub"
-        | none => { model := some "bad-args" }
-      | "sub", [.str s, .str istr, j] =>
-        -- the position travels as a numeric string: Lua converts it (§2.2.1); LState.CheckInt does not and raises
-        match parseDecimal istr, optInt j with
-        | some i, some j =>
-          verdict "err" (showStr (sub s i (j.getD (-1)))) impl "sub" (some "C15-int-arg-no-string-coercion")
-        | _, _ => { model := some "bad-args" }
-      | "rep", [.str s, .str nstr] =>
-        match parseDecimal nstr with
-        | some n =>
-          if n ≤ 64 then verdict "err" (showStr (rep s n)) impl "rep" (some "C15-int-arg-no-string-coercion")
-          else { model := some "bad-args" }
         | none => { model := some "bad-args" }
       | "byte", [.str s, i, j] =>
         match optInt i, optInt j with
@@ -420,7 +433,7 @@ def handle (ws : List String) : Verdict :=
             | _ => some "mod malformed" }
       | "random2", [.int m, .int n] =>
         -- the value is random: the Model only predicts the outcome class (with a dummy generator)
-        let cls := match StrModel.mathRandom2 (fun _ => 0) m n with
+        let cls := match StrModel.mathRandom2 (fun _ => 0) 0 m n with
           | .ok _ => "value" | .error (.goPanic _) => "gopanic" | .error _ => "err"
         let icls := match impl with
           | ["err"] => "err" | ["gopanic"] => "gopanic" | _ => "value"
@@ -429,10 +442,7 @@ def handle (ws : List String) : Verdict :=
             match impl with
             | [r] => match (r.drop 1).toString.toInt? with
               | some r => if m ≤ r ∧ r ≤ n then none else some "random(m,n) outside [m,n]"
-              | none =>
-                let why := "random(m,n) with m <= n did not return an integer in [m,n]"
-                if n - m + 1 ≥ 9223372036854775808 ∧ icls = cls then some ("KF:C15-random-interval-overflow " ++ why)
-                else some why
+              | none => some "random(m,n) with m <= n did not return an integer in [m,n]"
             | _ => some "random malformed"
           else if impl = ["err"] then none else some "random(m,n) with m > n must be an error"
         { model := if icls = cls then none else some cls, spec := sp }
